@@ -29,6 +29,8 @@ pub struct Profile {
     pub assumptions: &'static [&'static str],
     /// fixed sweep appended in the thorough tier (returns cases evaluated)
     pub sweep: Option<fn(&mut RunOut) -> u64>,
+    /// a few pinned scenarios run in *both* tiers before the seeded search (returns cases)
+    pub pinned: Option<fn(&mut RunOut) -> u64>,
 }
 
 pub const REAL_COMMON: &[&str] = &[
@@ -276,6 +278,7 @@ pub fn registry() -> Vec<Profile> {
             stubs: STUBS_COMMON,
             assumptions: ASSUME_COMMON,
             sweep: Some(crate::sweeps::sweep_c01),
+            pinned: None,
         },
         Profile {
             id: "C02",
@@ -289,6 +292,7 @@ pub fn registry() -> Vec<Profile> {
             stubs: STUBS_COMMON,
             assumptions: ASSUME_COMMON,
             sweep: None,
+            pinned: None,
         },
         Profile {
             id: "C03",
@@ -302,6 +306,7 @@ pub fn registry() -> Vec<Profile> {
             stubs: STUBS_COMMON,
             assumptions: ASSUME_COMMON,
             sweep: Some(crate::sweeps::sweep_c03),
+            pinned: None,
         },
         Profile {
             id: "C04",
@@ -315,6 +320,7 @@ pub fn registry() -> Vec<Profile> {
             stubs: STUBS_COMMON,
             assumptions: ASSUME_COMMON,
             sweep: Some(crate::direct::sweep_c04),
+            pinned: None,
         },
         Profile {
             id: "C05",
@@ -328,6 +334,7 @@ pub fn registry() -> Vec<Profile> {
             stubs: STUBS_COMMON,
             assumptions: ASSUME_COMMON,
             sweep: Some(crate::sweeps::sweep_c05),
+            pinned: None,
         },
         Profile {
             id: "C11",
@@ -341,6 +348,7 @@ pub fn registry() -> Vec<Profile> {
             stubs: STUBS_COMMON,
             assumptions: ASSUME_COMMON,
             sweep: None,
+            pinned: None,
         },
         Profile {
             id: "C12",
@@ -354,6 +362,7 @@ pub fn registry() -> Vec<Profile> {
             stubs: STUBS_COMMON,
             assumptions: ASSUME_COMMON,
             sweep: Some(crate::sweeps::sweep_c12),
+            pinned: None,
         },
         Profile {
             id: "C14",
@@ -367,6 +376,7 @@ pub fn registry() -> Vec<Profile> {
             stubs: STUBS_COMMON,
             assumptions: ASSUME_COMMON,
             sweep: Some(crate::sweeps::sweep_c14),
+            pinned: Some(crate::sweeps::pinned_c14),
         },
         Profile {
             id: "C15",
@@ -380,6 +390,7 @@ pub fn registry() -> Vec<Profile> {
             stubs: STUBS_COMMON,
             assumptions: ASSUME_COMMON,
             sweep: None,
+            pinned: None,
         },
     ];
     v.extend(crate::direct::registry());
